@@ -1,16 +1,19 @@
 #!/bin/sh
-# usage: confirm_seeded.sh <worktree> ; prints CONFIRM lines. Expects MUTANT/patch.diff and the demo
-# as crates/anemo/tests/mutant_demo.rs (or named in MUTANT/DEMO_CMD).
+# usage: confirm_seeded.sh <worktree> ; prints CONFIRM lines. Expects MUTANT/patch.diff, the demo as
+# crates/*/tests/mutant_demo.rs (or an in-crate module wired in by MUTANT/demo_mod.diff) and
+# optionally MUTANT/DEMO_CMD.
 D="$1"; cd "$D" || exit 2
+B=$(basename "$D")
 DEMO_CMD="cargo test -p anemo --offline --test mutant_demo"
 [ -f MUTANT/DEMO_CMD ] && DEMO_CMD="$(cat MUTANT/DEMO_CMD)"
 git checkout -- crates >/dev/null 2>&1
 git apply MUTANT/patch.diff || { echo "CONFIRM $D patch-does-not-apply"; exit 1; }
-DEMO=crates/anemo/tests/mutant_demo.rs
-[ -f "$DEMO" ] && mv "$DEMO" /tmp/$(basename $D).demo.rs
-if cargo test --workspace --offline >/tmp/$(basename $D).suite.log 2>&1; then echo "CONFIRM $D suite-with-change=PASS"; else echo "CONFIRM $D suite-with-change=FAIL"; fi
-[ -f /tmp/$(basename $D).demo.rs ] && mv /tmp/$(basename $D).demo.rs "$DEMO"
-if $DEMO_CMD >/tmp/$(basename $D).demo1.log 2>&1; then echo "CONFIRM $D demo-with-change=PASS(unexpected)"; else echo "CONFIRM $D demo-with-change=FAIL(expected)"; fi
+DEMO=$(ls crates/*/tests/mutant_demo.rs 2>/dev/null | head -1)
+[ -n "$DEMO" ] && mv "$DEMO" /tmp/$B.demo.rs
+if cargo test --workspace --offline >/tmp/$B.suite.log 2>&1; then echo "CONFIRM $D suite-with-change=PASS"; else echo "CONFIRM $D suite-with-change=FAIL"; fi
+[ -n "$DEMO" ] && mv /tmp/$B.demo.rs "$DEMO"
+[ -f MUTANT/demo_mod.diff ] && git apply MUTANT/demo_mod.diff
+if $DEMO_CMD >/tmp/$B.demo1.log 2>&1; then echo "CONFIRM $D demo-with-change=PASS(unexpected)"; else echo "CONFIRM $D demo-with-change=FAIL(expected)"; fi
 git apply -R MUTANT/patch.diff
-if $DEMO_CMD >/tmp/$(basename $D).demo2.log 2>&1; then echo "CONFIRM $D demo-without-change=PASS(expected)"; else echo "CONFIRM $D demo-without-change=FAIL(unexpected)"; fi
+if $DEMO_CMD >/tmp/$B.demo2.log 2>&1; then echo "CONFIRM $D demo-without-change=PASS(expected)"; else echo "CONFIRM $D demo-without-change=FAIL(unexpected)"; fi
 git apply MUTANT/patch.diff
